@@ -39,17 +39,28 @@ func (x *Engine) indexFunctions() {
 			switch m := m.(type) {
 			case *ssa.Function:
 				x.fnByKey[specKeyOf(m)] = m
+				x.indexAnon(m)
 			case *ssa.Type:
 				for _, t := range []types.Type{m.Type(), types.NewPointer(m.Type())} {
 					ms := x.prog.MethodSets.MethodSet(t)
 					for i := 0; i < ms.Len(); i++ {
 						if f := x.prog.MethodValue(ms.At(i)); f != nil && f.Synthetic == "" {
 							x.fnByKey[specKeyOf(f)] = f
+							x.indexAnon(f)
 						}
 					}
 				}
 			}
 		}
+	}
+}
+
+func (x *Engine) indexAnon(f *ssa.Function) {
+	for _, a := range f.AnonFuncs {
+		if a.Pkg != nil {
+			x.fnByKey[a.Pkg.Pkg.Path()+"."+a.Name()] = a
+		}
+		x.indexAnon(a)
 	}
 }
 
@@ -100,6 +111,23 @@ func (x *Engine) verifyFunc(fs *FuncSpec, cs *Clause) (rep *FuncReport) {
 		args = append(args, v)
 	}
 	fr.env = x.contractEnv(fs, fn.Signature, args)
+	// captured variables of a closure under contract: cells holding arbitrary well-formed values
+	for _, fv := range fn.FreeVars {
+		cell := "fv_" + mangle(fv.Name())
+		x.decl(cell, "Int")
+		et := ptrElem(fv.Type())
+		cv := Val{T: cell, Typ: fv.Type()}
+		if _, isS := structOf(et); !isS {
+			cv.Addr = &Addr{Kind: "cell", Key: x.memKey(et), Ref: cell}
+		}
+		x.assume(st, fmt.Sprintf("(and (< %s %s) (not (= %s 0)))", cell, x.get(st, "$alloc"), cell))
+		fr.vals[fv] = cv
+		if cv.Addr != nil {
+			content := Val{T: x.name("fvv", x.sortOf(et), x.loadAddr(st, cv.Addr)), Typ: et}
+			x.assume(st, x.wf(et, content.T, st))
+			fr.env[fv.Name()] = content
+		}
+	}
 	if x.conc {
 		x.setupConc(fr, st, fs)
 	}
@@ -166,6 +194,21 @@ func (x *Engine) verifyFunc(fs *FuncSpec, cs *Clause) (rep *FuncReport) {
 		}
 		// reachability of the normal return (vacuity)
 		x.obls = append(x.obls, &Obl{Name: x.curFn + "#cover[return]", Func: x.curFn, Kind: "cover", Label: "return", Props: fs.Props, NScript: len(x.script), Goal: "false", Live: ret.live, Text: "a normal return is reachable", Expect: "sat"})
+		// ghost assignments at the normal return (ghost state never influences the code)
+		for _, c := range fs.Sets {
+			g, ok := x.db.Ghosts[c.Label]
+			if !ok {
+				panic(fmt.Sprintf("%s:%d: contract error: sets: %s is not a ghost variable\n    in: %s", c.File, c.Line, c.Label, c.Text))
+			}
+			ev := &Eval{x: x, st: ret, old: fr.entry, env: env, pkg: pkg}
+			v := x.safeEval(ev, c)
+			if g.Sort == "Real" {
+				v = ev.toReal(v)
+			}
+			key := "ghost:" + c.Label
+			x.regComp(key, g.Sort)
+			x.set(ret, key, v.T)
+		}
 		if len(fs.Uses) > 0 {
 			// lemma arguments may mention locals of the (last) return point
 			uenv := map[string]Val{}
@@ -296,7 +339,7 @@ func (x *Engine) frameObligations(fr *Frame, fs *FuncSpec, ret *State, env map[s
 					allowed[k] = append(allowed[k], &Addr{Kind: "row", Key: k, Ref: v.T})
 				}
 				continue
-			case "all":
+			case "all", "cells":
 				ks, ok := x.modKeyStatic(fs, m)
 				if ok {
 					for _, k := range ks {
